@@ -269,6 +269,31 @@ fn gen_exec_chain(cx: &mut Ctx, honest: bool) -> Vec<ND> {
     c
 }
 
+/// insert a RESTATING mid-chain marker: a `Materialized` whose payload is exactly the rows flowing at that
+/// point (computed by the real sequential engine on the literal prefix). Dropping such a marker must not
+/// change the result; the literal chain replaces the buffer by an equal one.
+fn with_restating_marker(cx: &mut Ctx, chain: &[ND]) -> Option<Vec<ND>> {
+    // positions after which the flowing partition is `Vec<Row>`
+    let mut ok_pos: Vec<usize> = vec![];
+    let mut grouped = false;
+    for (i, n) in chain.iter().enumerate() {
+        match n {
+            ND::Src(_) | ND::Cv | ND::Cvl | ND::Mat(_) => grouped = false,
+            ND::Gbk => grouped = true,
+            ND::St(ops) => { if ops.iter().any(|o| o.code == 'G') { grouped = false; } }
+        }
+        if !grouped && i + 1 < chain.len() { ok_pos.push(i); }
+    }
+    if ok_pos.is_empty() { return None; }
+    let i = *cx.rng.pick(&ok_pos);
+    let prefix = build_chain(&chain[..=i]);
+    let rows = match guarded(move || rv::exec_seq::<Row>(prefix.chain)) { Ok(Ok(r)) => r, _ => return None };
+    let mut out = chain[..=i].to_vec();
+    out.push(ND::Mat(rows));
+    out.extend_from_slice(&chain[i + 1..]);
+    Some(out)
+}
+
 fn explain_case(cx: &mut Ctx, prog: &pipe::Prog) {
     use pipe::Coll;
     let p = Pipeline::default();
@@ -282,8 +307,29 @@ fn explain_case(cx: &mut Ctx, prog: &pipe::Prog) {
         Node::CombineValues { local_groups, .. } => if local_groups.is_some() { "CombineValues+lifted".into() } else { "CombineValues".into() },
         Node::CoGroup { .. } => "CoGroup".into(), Node::CombineGlobal { .. } => "CombineGlobal".into(), Node::Materialized(_) => "Materialized".into(),
     }).collect();
-    let idx = cx.case(format!("EXPLAIN {}", prog.request("seq").splitn(2, ' ').nth(1).unwrap_or("")), kinds.join(","), prog.steps.len() >= 2);
+    // the chain the RUNNER actually receives, observed through the on_plan hook during a real collect
+    let observed: std::sync::Arc<std::sync::Mutex<Vec<Vec<String>>>> = Default::default();
+    {
+        let o2 = observed.clone();
+        ironbeam::verif_hooks::set_plan_callback(Some(std::sync::Arc::new(move |k: &[String]| o2.lock().unwrap().push(k.to_vec()))));
+        let _ = guarded(|| pipe::collect(c, pipe::Mode::Seq));
+        ironbeam::verif_hooks::set_plan_callback(None);
+    }
+    let ran: Vec<String> = observed.lock().unwrap().first().cloned().unwrap_or_default();
+    let idx = cx.case(format!("EXPLAIN {}", prog.request("seq").splitn(2, ' ').nth(1).unwrap_or("")), ran.join(","), prog.steps.len() >= 2);
     cx.count("plan:explain");
+    if ran != kinds {
+        cx.oracle_fail(idx, "explain-is-not-the-plan-that-runs", format!("build_plan chain={kinds:?} chain received by the runner={ran:?}"));
+    }
+    // per-step facts of explain(): barrier flags, op counts of every Stateless step
+    for (st, k) in ex.steps.iter().zip(kinds.iter()) {
+        let is_barrier = matches!(k.as_str(), "GroupByKey" | "CombineValues" | "CombineValues+lifted" | "CoGroup" | "CombineGlobal");
+        let n_ops = k.strip_prefix("Stateless").and_then(|n| n.parse::<usize>().ok());
+        let desc_ok = n_ops.is_none_or(|n| st.description.starts_with(&format!("Apply {n} operations")));
+        if st.is_barrier != is_barrier || !desc_ok {
+            cx.oracle_fail(idx, "explain-is-not-the-plan-that-runs", format!("step {} ({}) barrier={} description={:?} vs chain node {k}", st.step, st.node_type, st.is_barrier, st.description));
+        }
+    }
     // explain() must list exactly the nodes of the chain that runs, in order, with matching op counts
     let lit = pv::backwalk(&p, id).map(real_optimise).unwrap_or_default();
     let ex_types: Vec<String> = ex.steps.iter().map(|s| s.node_type.clone()).collect();
@@ -384,7 +430,13 @@ pub fn run(cx: &mut Ctx) {
     let n = cx.budget(1500, 30000);
     for _ in 0..n { let c = gen_struct_chain(cx); plan_case(cx, &c); }
     let n = cx.budget(500, 10000);
-    for i in 0..n { let c = gen_exec_chain(cx, i % 2 == 0); planx_case(cx, &c); }
+    for i in 0..n {
+        let c = gen_exec_chain(cx, i % 2 == 0);
+        planx_case(cx, &c);
+        if i % 4 == 0 {
+            if let Some(m) = with_restating_marker(cx, &c) { cx.count("plan:executed-with-restating-marker"); planx_case(cx, &m); }
+        }
+    }
 
     // builder programs: explain() and planned == reference
     let o = pipe::CheckOpts { par_vs_seq: false, vs_reference: true };
